@@ -30,6 +30,15 @@ CORPUS = [
          new="\th32 ^= h32 >> 12\n\th32 *= prime3\n\th32 ^= h32 >> 16\n\n\treturn h32\n}\n\n// Portable version of ChecksumZero."),
     dict(name="C13-reset-keeps-buffer", kind="break", props=["C13"], file="internal/xxh32/xxh32zero.go",
          old="\txxh.totalLen = 0\n\txxh.bufused = 0\n}", new="\txxh.totalLen = 0\n}"),
+    # ---- bounded stand-in C20 ----
+    dict(name="C20-sc-flag-passed-straight", kind="break", props=["C20"], file="cmd/lz4c/compress.go",
+         old="lz4.ChecksumOption(!streamChecksum),", new="lz4.ChecksumOption(streamChecksum),"),
+    dict(name="C20-uncompress-keeps-stale-tail", kind="break", props=["C20"], file="cmd/lz4c/uncompress.go",
+         old="os.O_CREATE|os.O_WRONLY|os.O_TRUNC, mode", new="os.O_CREATE|os.O_WRONLY, mode"),
+    dict(name="C20-block-checksum-flag-ignored", kind="break", props=["C20"], file="cmd/lz4c/compress.go",
+         old="lz4.BlockChecksumOption(blockChecksum),", new="lz4.BlockChecksumOption(false),"),
+    dict(name="C20-output-mode-fixed", kind="break", props=["C20"], file="cmd/lz4c/uncompress.go",
+         old="mode := zinfo.Mode() // use the same mode for the output file", new="mode := zinfo.Mode() | 0o644 // use the same mode for the output file"),
     # ---- bounded stand-in C08 ----
     dict(name="C08-reset-after-close-waits-again", kind="break", props=["C08"], file="internal/lz4stream/block.go",
          old="\tb.Blocks = nil\n\terr := b.err", new="\terr := b.err"),
